@@ -64,7 +64,7 @@ Example C04_nonvacuous :
      (0,1); (0,1); (0,1); (0,1); (0,1); (0,1); (0,1); (0,1); (0,1); (0,1); (1,1); (1,1); (1,1); (1,1); (1,0); (1,0)]%N.
 Proof. vm_compute. repeat split. Qed.
 
-(** * known findings (classifiers in Model/KnownC04.v), each witnessed on a concrete instance *)
+(** * known finding (classifier in Model/KnownC04.v), witnessed on a concrete instance *)
 
 (** the commit that completes an upgrade (the staged inventory requires 0=ocfl_object_1.1, the object
     declares 1.0): a fault at the creation of the new declaration (position 26), at its write (27) or
@@ -76,27 +76,33 @@ Lemma c04_upgrade_declaration_fault_refuted :
     predict PCommit ex_cfg (ex_tree ex_d11) (Fault k) = (2, 1)%N.
 Proof. exists 26%nat. vm_compute. split; reflexivity. Qed.
 
-(** upgrade of an object that was never committed: a fault in the rewrite of the staged declaration leaves
-    the main repository untouched, but the retried upgrade is refused and the retried commit installs
-    an object the validator rejects *)
-Lemma c04_staged_declaration_fault_refuted :
-  exists k,
-    c04_staged_declaration_fault (upgrade_object ex_cfg) ex_cfg (ex1_tree ex_d10) k = true /\
-    let t1 := run_tree (upgrade_object ex_cfg) (ex1_tree ex_d10) (Fault k) in
-    same_underb ex_mo t1 (ex1_tree ex_d10) = true /\
-    res_code (fst (run (upgrade_object ex_cfg) t1 NoInj)) = 1%N /\
-    res_code (fst (run (commit ex_cfg) t1 NoInj)) = 0%N /\
-    obj_validb ex_cfg (run_tree (commit ex_cfg) t1 NoInj) ex_mo = false.
-Proof. exists 5%nat. vm_compute. repeat split; reflexivity. Qed.
+(** * regression witnesses of the two repaired findings (9d3a720, 7857f07 + 9f4b67d): on the concrete instances
+    the retried command now yields the fault-free result at EVERY fault position that left the old object
+    and a parseable staged inventory *)
 
-(** a failing rmdir in clean_dirs_up leaves an empty directory in the staged content; the retried commit
-    succeeds and installs it (the fault-free commit does not) *)
-Lemma c04_cleanup_rmdir_fault_refuted :
-  exists k,
-    c04_cleanup_rmdir_fault (commit ex_cfg) ex_cfg (ex_tree ex_d10) k = true /\
-    let t1 := run_tree (commit ex_cfg) (ex_tree ex_d10) (Fault k) in
-    same_underb ex_mo t1 (ex_tree ex_d10) = true /\
-    res_code (fst (run (commit ex_cfg) t1 NoInj)) = 0%N /\
-    no_empty_dirb (run_tree (commit ex_cfg) t1 NoInj) ex_mo = false /\
-    no_empty_dirb (run_tree (commit ex_cfg) (ex_tree ex_d10) NoInj) ex_mo = true.
-Proof. exists 16%nat. vm_compute. repeat split; reflexivity. Qed.
+(** a fault anywhere in the commit of the instance with a duplicate alone in its directory (position 16 is the
+    rmdir of clean_dirs_up that used to leave an empty directory): the retried commit gives the fault-free
+    main object, without empty directories *)
+Example C04_retry_after_cleanup_fault :
+  forallb (fun k =>
+             let t1 := run_tree (commit ex_cfg) (ex_tree ex_d10) (Fault k) in
+             negb (same_underb ex_mo t1 (ex_tree ex_d10)) || negb (staged_inv_ok ex_cfg t1)
+             || (N.eqb (res_code (fst (run (commit ex_cfg) t1 NoInj))) 0
+                 && same_underb ex_mo (run_tree (commit ex_cfg) t1 NoInj) (run_tree (commit ex_cfg) (ex_tree ex_d10) NoInj)
+                 && no_empty_dirb (run_tree (commit ex_cfg) t1 NoInj) ex_mo))
+          (List.seq 0 40) = true.
+Proof. vm_compute. reflexivity. Qed.
+
+(** upgrade of a never committed object: after a fault at any position that left the main repository untouched,
+    the retried upgrade - or, when that is refused because the staged inventory already carries the new type,
+    the retried commit - installs the valid fault-free object *)
+Example C04_retry_after_staged_declaration_fault :
+  forallb (fun k =>
+             let t1 := run_tree (upgrade_object ex_cfg) (ex1_tree ex_d10) (Fault k) in
+             negb (same_underb ex_mo t1 (ex1_tree ex_d10)) || negb (staged_inv_ok ex_cfg t1)
+             || (N.eqb (res_code (fst (run (retry_upgrade ex_cfg) t1 NoInj))) 0
+                 && same_underb ex_mo (run_tree (retry_upgrade ex_cfg) t1 NoInj)
+                                      (run_tree (upgrade_object ex_cfg) (ex1_tree ex_d10) NoInj)
+                 && obj_validb ex_cfg (run_tree (retry_upgrade ex_cfg) t1 NoInj) ex_mo))
+          (List.seq 0 40) = true.
+Proof. vm_compute. reflexivity. Qed.
